@@ -48,6 +48,7 @@ func init() {
 			{ID: "C06-R25", Title: "what ends a blocked operation waits for no lock that the operation holds", Floor: 1, Run: whatEndsABlockedOperationWaitsForNoLockItHolds},
 			{ID: "C06-R26", Title: "callback loops are bounded by what was there", Floor: 1, Run: callbackLoopsAreBoundedByWhatWasThere},
 			{ID: "C06-R27", Title: "processes are started with the context", Floor: 2, Run: processesAreStartedWithTheContext},
+			{ID: "C06-R28", Title: "an iterator ends when the context does", Floor: 1, Run: anIteratorEndsWhenTheContextDoes},
 		},
 	})
 }
